@@ -34,7 +34,11 @@ ASSUMPTIONS = ["temporary files are created under a scratch directory that is re
 EQS = [("x + y <= 4", lambda x, y: x + y <= 4), ("x**2 + y**2 <= 9", lambda x, y: x * x + y * y <= 9), ("x == y", lambda x, y: x == y),
        ("(x - 2)*(y - 1) > 0", lambda x, y: (x - 2) * (y - 1) > 0), ("x % 2 == 0", lambda x, y: x % 2 == 0)]
 FNS = [("return x - y", lambda x, y: x - y), ("return 3 - (x + y)", lambda x, y: 3 - (x + y)), ("return x*y - 4", lambda x, y: x * y - 4),
-       ("return (x - 2)**2 - 1", lambda x, y: (x - 2) ** 2 - 1)]
+       ("return (x - 2)**2 - 1", lambda x, y: (x - 2) ** 2 - 1),
+       # fractional values (dyadic: exact): negative values between -1 and 0 are negative
+       ("return (x - y) / 4 - 0.125", lambda x, y: (x - y) / 4 - 0.125), ("return 0.25 * x - 0.75", lambda x, y: 0.25 * x - 0.75),
+       ("return (x * y - 3) / 8", lambda x, y: (x * y - 3) / 8), ("return ((x - 2)**2 + (y - 1)**2) ** 0.5 - 2.5", lambda x, y: ((x - 2) ** 2 + (y - 1) ** 2) ** 0.5 - 2.5),
+       ("return -0.5 + 0 * x", lambda x, y: -0.5), ("return 0.5 + 0 * x", lambda x, y: 0.5)]
 
 
 def box_part(ctx, count):
